@@ -481,3 +481,150 @@ func heldAtRW(fn *ssa.Function, at ssa.Instruction, mu string) bool {
 	return heldAt(fn, at, mu)
 	// (eviction and Clear are methods of the cache itself; a helper called under the lock would be read by heldAtOrAtCallers)
 }
+
+// ---------------------------------------------------------------------------
+// R22c NO-STALE-SNAPSHOT (C16)
+//
+// A function of the cache that hands out what it read from a shared entry must
+// not complete the entry *after* it took that reading: the caller would get the
+// value from before (seeded change C16g: `entry.load()` moved in front of
+// `addDocVecIDMapToCacheLOCKED(entry)`; the first filtered search after an
+// unfiltered one got a nil doc->vector map and answered with nothing).
+// For every returned value that is a reading of field f of a cache entry e (a
+// direct load, or result k of a method of e that returns its field f as result
+// k), no store to e.f — direct, or inside a function of the package that is
+// handed e — lies on a path between the reading and the return.
+func r22NoStaleSnapshot(c *RuleCtx) {
+	props := []string{"C16"}
+	isEntryPtr := func(t types.Type) bool {
+		p, ok := t.Underlying().(*types.Pointer)
+		return ok && isNamed(p.Elem(), zapPkgPath, "cacheEntry")
+	}
+	// which field does result k of a method of cacheEntry hand out? (all returns agree)
+	var resultField func(f *ssa.Function, k int, depth int) string
+	resultField = func(f *ssa.Function, k int, depth int) string {
+		if f == nil || len(f.Blocks) == 0 || f.Signature.Recv() == nil || !isEntryPtr(f.Signature.Recv().Type()) || depth > 3 {
+			return ""
+		}
+		name := ""
+		for _, ret := range returnsOf(f) {
+			if k >= len(ret.Results) {
+				return ""
+			}
+			v := returnedValue(ret, k)
+			if isNilConst(v) {
+				continue // hands out nothing on this exit
+			}
+			fld := ""
+			if sn, fl, base, ok := loadedField(v); ok && sn == "cacheEntry" && root(base) == ssa.Value(f.Params[0]) {
+				fld = fl
+			} else if ex, ok := v.(*ssa.Extract); ok {
+				// the reading of another method of the same entry, passed on
+				if call, ok := ex.Tuple.(*ssa.Call); ok && len(call.Call.Args) > 0 && root(call.Call.Args[0]) == ssa.Value(f.Params[0]) {
+					fld = resultField(call.Call.StaticCallee(), ex.Index, depth+1)
+				}
+			}
+			if fld == "" || (name != "" && name != fld) {
+				return ""
+			}
+			name = fld
+		}
+		return name
+	}
+	// may f (handed the entry as parameter pi) store field fld of it?
+	var mayStore func(f *ssa.Function, pi int, fld string, depth int) bool
+	mayStore = func(f *ssa.Function, pi int, fld string, depth int) bool {
+		if f == nil || len(f.Blocks) == 0 || depth > 3 || pi >= len(f.Params) {
+			return false
+		}
+		prm := f.Params[pi]
+		found := false
+		eachInstr(f, func(_ *ssa.BasicBlock, in ssa.Instruction) {
+			switch x := in.(type) {
+			case *ssa.Store:
+				if sn, fl, base, ok := fieldOf(x.Addr); ok && sn == "cacheEntry" && fl == fld && root(base) == ssa.Value(prm) {
+					found = true
+				}
+			case ssa.CallInstruction:
+				g := staticCallee(x)
+				if g == nil || !c.p.InZap(g) {
+					return
+				}
+				for ai, a := range x.Common().Args {
+					if root(a) == ssa.Value(prm) && mayStore(g, ai, fld, depth+1) {
+						found = true
+					}
+				}
+			}
+		})
+		return found
+	}
+	n := 0
+	for _, fn := range c.p.ZapFuncs {
+		if len(fn.Blocks) == 0 || fn.Signature.Recv() == nil || !isNamed(fn.Signature.Recv().Type(), zapPkgPath, "vectorIndexCache") {
+			continue
+		}
+		type reading struct {
+			at    ssa.Instruction
+			entry ssa.Value
+			fld   string
+		}
+		readingOf := func(v ssa.Value) (reading, bool) {
+			switch x := v.(type) {
+			case *ssa.Extract:
+				call, ok := x.Tuple.(*ssa.Call)
+				if !ok || len(call.Call.Args) == 0 {
+					return reading{}, false
+				}
+				if fld := resultField(call.Call.StaticCallee(), x.Index, 0); fld != "" {
+					return reading{call, root(call.Call.Args[0]), fld}, true
+				}
+			case *ssa.UnOp:
+				if sn, fld, base, ok := loadedField(x); ok && sn == "cacheEntry" {
+					return reading{x, root(base), fld}, true
+				}
+			}
+			return reading{}, false
+		}
+		var bad []string
+		for _, ret := range returnsOf(fn) {
+			for i := range ret.Results {
+				rd, ok := readingOf(returnedValue(ret, i))
+				if !ok {
+					continue
+				}
+				n++
+				// a store to that field of that entry between the reading and the return
+				between := func(in ssa.Instruction) bool {
+					rb, ib, tb := rd.at.Block(), in.Block(), ret.Block()
+					after := (ib == rb && instrIndexIn(in) > instrIndexIn(rd.at)) || (ib != rb && reachesBlock(rb, ib) && rb.Dominates(ib))
+					before := ib == tb || reachesBlock(ib, tb)
+					return after && before
+				}
+				eachInstr(fn, func(_ *ssa.BasicBlock, in ssa.Instruction) {
+					switch x := in.(type) {
+					case *ssa.Store:
+						if sn, fl, base, ok := fieldOf(x.Addr); ok && sn == "cacheEntry" && fl == rd.fld && root(base) == rd.entry && between(in) {
+							bad = append(bad, fmt.Sprintf("%s: %s.%s is stored after it was read for the result handed out at %s", c.pos(in), "cacheEntry", rd.fld, c.pos(ret)))
+						}
+					case ssa.CallInstruction:
+						g := staticCallee(x)
+						if g == nil || !c.p.InZap(g) || in == rd.at {
+							return
+						}
+						for ai, a := range x.Common().Args {
+							if root(a) == rd.entry && mayStore(g, ai, rd.fld, 0) && between(in) {
+								bad = append(bad, fmt.Sprintf("%s: %s completes cacheEntry.%s after it was read (%s) for the result handed out at %s", c.pos(in), funcShortName(g), rd.fld, c.pos(rd.at), c.pos(ret)))
+							}
+						}
+					}
+				})
+			}
+		}
+		if len(bad) > 0 {
+			c.badP(props, "no-stale-snapshot/"+funcShortName(fn), c.fpos(fn), "what "+funcShortName(fn)+" hands out of a cache entry is read after the entry was completed, not before",
+				"a value read from the shared entry is handed out although the entry was changed afterwards on that path: the caller gets the old value", uniq(bad)...)
+		}
+	}
+	c.add(statusOf(n >= 1), "no-stale-snapshot/readings", "-", "results of cache functions that are readings of a shared entry are found and none is stale (pinned tree: 10 in loadFromCache and createAndCacheLOCKED)", fmt.Sprintf("found %d", n), props, nil)
+}
